@@ -1,4 +1,6 @@
 import Pike.Model.Location
+import Pike.Spec.Skeleton
+import Pike.Facts
 /-
 C14 — routing picks a matching location of the best specificity class.
 All statements quantify over every location list and every order the unstable sort may
@@ -7,6 +9,13 @@ leave equal-priority locations in (`SortedPerm`).
 namespace Pike
 namespace C14
 open Location Str
+
+/-- Obligation on the regenerated statement skeletons of `Location.Match`, `Locations.Get` and `Locations.Set`: host list then prefix list; first match among the named locations in stored order; sorted by priority BEFORE the list is published under the mutex. -/
+theorem skeleton_transcribed :
+    Facts.skel_Location_Match = Spec.Skeleton.Location_Match
+    ∧ Facts.skel_Locations_Get = Spec.Skeleton.Locations_Get
+    ∧ Facts.skel_Locations_Set = Spec.Skeleton.Locations_Set := by
+  refine ⟨?_, ?_, ?_⟩ <;> rfl
 
 /-- Obligation on the translated `getPriority` and the extracted comparator: ascending sort,
 and the four classes order as prefix+host < prefix < host < unconstrained, whatever the
